@@ -940,6 +940,8 @@ def r02_s(ctx):
     # r09_2: the hex digit planes - an invalid digit of a \\u escape is rejected only if its table entry carries the marker
     for fn in (c09.r09_2, c09.r09_3, c09.r09_4, c09.r09_6, c09.r09_8):
         ctx.include(fn, 'R02.S')
+    from . import c14
+    ctx.include(c14.r14_7, 'R02.S')  # the validating string skipper interprets every escape
     from . import c07
     ctx.include(c07.r07_8, 'R02.S')  # the float fast path assembles normal doubles only: outside its exponent range it returns inf/NaN bits that the finiteness test never sees (a number beyond f64 is accepted)
 
